@@ -43,6 +43,7 @@ import yaml
 from semantiva.pipeline.node_preprocess import preprocess_node_config
 from semantiva.registry import resolve_parameters
 from semantiva.registry.descriptors import descriptor_to_json
+from semantiva.metadata.semantic_id import compute_node_semantic_id
 
 # Namespace used for deterministic node UUID generation
 _NODE_NAMESPACE = uuid.UUID("00000000-0000-0000-0000-000000000000")
@@ -110,6 +111,22 @@ def _canonical_node(
     return canon
 
 
+def _preprocessor_semantic_id(processor: Any) -> str | None:
+    """Fingerprint of the preprocessor metadata of a generated processor class."""
+    if not isinstance(processor, type):
+        return None
+    try:
+        meta = processor.get_metadata().get("preprocessor")  # type: ignore[attr-defined]
+    except Exception:
+        return None
+    if not isinstance(meta, dict):
+        return None
+    try:
+        return compute_node_semantic_id(meta)
+    except Exception:
+        return None
+
+
 def build_canonical_spec(
     pipeline_or_spec: Any,
 ) -> tuple[dict[str, Any], List[dict[str, Any]]]:
@@ -141,6 +158,13 @@ def build_canonical_spec(
         resolved.append(cfg)
         canon = _canonical_node(cfg, declaration_index, declaration_subindex)
         canon["params"] = descriptor_to_json(params)
+        # A derive.* preprocessor replaces the processor by a generated class whose
+        # qualified name is the same for every sweep; its definition (element,
+        # expressions, variables, mode, ...) is identity-bearing, so fold its
+        # semantic fingerprint into the canonical node (and hence node_uuid).
+        preprocessor_id = _preprocessor_semantic_id(cfg.get("processor"))
+        if preprocessor_id is not None:
+            canon["preprocessor_semantic_id"] = preprocessor_id
         node_json = json.dumps(canon, sort_keys=True, separators=(",", ":"))
         node_uuid = str(uuid.uuid5(_NODE_NAMESPACE, node_json))
         canon_with_uuid = dict(canon)
